@@ -141,6 +141,37 @@ pub fn c14(h: &mut H) {
                     gate(h, "other_trusted", &bases, &iss.zk, &iss.c, Some(&v2), iss.cpk.as_ref(), &hidden, &k);
                 }
             }
+            // a trusted commitment handed to the issuer although the proof has no sub-proof for it
+            if !with_trusted {
+                let (ctx, _) = call(h, "cl.commitcpk", vec![tcpk.clone(), ivs(&other), uv(&hidden)], vec![]);
+                if let Some(ctx) = ctx.ok() {
+                    let v2 = com_value(ctx);
+                    gate(h, "trusted_without_subproof", &bases, &iss.zk, &iss.c, Some(&v2), Some(&tcpk), &hidden, &k);
+                }
+            } else {
+                // the sub-proof removed from a proof that had one
+                let mut z = iss.zk.clone();
+                z["proof_C_Ctrusted"] = Value::Null;
+                gate(h, "trusted_subproof_removed", &bases, &z, &iss.c, ctv.as_ref(), iss.cpk.as_ref(), &hidden, &k);
+            }
+            // minimum / maximum blindings (boundary tapes): the proof must still verify
+            for mx in [false, true] {
+                let bt = boundary_tape(&iss.zk_tape, mx);
+                let (zb, _) = call(
+                    h,
+                    "cl.zkgen",
+                    vec![ivs(&iss.msgs), iss.c.clone(), iss.ct.clone().unwrap_or(Value::Null), k.pk.clone(), ivs(&bases), iss.cpk.clone().unwrap_or(Value::Null), uv(&hidden)],
+                    bt,
+                );
+                let zid = h.last();
+                if let Some(zb) = zb.ok().cloned() {
+                    let v = zkverify(h, &k.pk, &bases, &zb, &cv, ctv.as_ref(), iss.cpk.as_ref(), &hidden);
+                    h.expect(v.is_true(), "C14.boundary_tape", "proof generated with extreme blindings does not verify", &[zid, h.last()]);
+                } else {
+                    h.expect(false, "C14.boundary_tape_gen", "generate_proof panicked on an extreme-blinding tape", &[zid]);
+                }
+                if hidden.len() > 1 { break; }
+            }
             // field-wise edits of the serialized ZKPoK
             let mut lv = Vec::new();
             leaves(&iss.zk, String::new(), &mut lv);
